@@ -4,6 +4,7 @@
 """
 import datetime
 import gzip
+import itertools
 import json
 import os
 import random
@@ -276,7 +277,12 @@ def c19(rng, tier, repo):
     C.add_repo(repo)
     viol, n, distinct, samples = [], 0, 0, []
     for i in range(8 if tier == 'quick' else 120):
-        for profile in ('ebuild', 'old-ebuild', 'default'):
+        for profile, order in itertools.product(('ebuild', 'old-ebuild', 'default'), ('asc', 'desc')):
+            # every generated repository is created twice, once per listing order
+            if order == 'asc':
+                rng_state = rng.getstate()
+            else:
+                rng.setstate(rng_state)
             with C.Scratch() as root:
                 cats, pkgs = gen_repo(root, rng)
                 override = rng.random() < 0.3
@@ -289,10 +295,14 @@ def c19(rng, tier, repo):
                     argv += ['--compress-watermark', '100000']
                 if fmt_only:
                     argv += ['--compress-format', 'bz2']
-                st = C.run_cli(argv + [root])
+                # the order in which a directory listing comes back is the file system's business: ascending and descending
+                # by turns (-j 1 keeps the walk in this process)
+                with C.scandir_order(order):
+                    st = C.run_cli(argv + [root])
                 n += 1
                 distinct += 1
-                desc = {'profile': profile, 'categories': cats, 'packages': pkgs, 'override': override, 'format_only': fmt_only}
+                desc = {'profile': profile, 'categories': cats, 'packages': pkgs, 'override': override, 'format_only': fmt_only,
+                        'listing_order': order}
                 if len(samples) < 2:
                     samples.append(desc)
                 if st != 0:
